@@ -1401,3 +1401,71 @@ T("C04", "twin-few-samples-decoded-msb-first", ("wavefunction.py", """        st
             tuple((index >> (wavefunction.n_qubits - 1 - qubit)) & 1 for qubit in range(wavefunction.n_qubits))
             for index in drawn.tolist()
         ]"""))
+
+# ----------------------------------------------------------------------------- round 7 rules
+B("C09", "is-hermitian-answers-true-for-constants", ("operators/_openfermion_utils/operator_utils.py", """    if isinstance(operator, (PauliSum, PauliTerm)):
+        return operator == hermitian_conjugated(operator)""", """    if isinstance(operator, (PauliSum, PauliTerm)):
+        if operator.is_constant:
+            return True
+        return operator == hermitian_conjugated(operator)"""), rule="C09-D2")
+B("C17", "non-negativity-with-a-tolerance-disjunct", (DIST, "    return all(value >= 0 for value in input_dict.values())", "    return all(value >= 0 or math.isclose(value, 0.0, abs_tol=1e-12) for value in input_dict.values())"), rule="C17-D1")
+T("C17", "twin-non-negativity-written-as-not-less-than", (DIST, "    return all(value >= 0 for value in input_dict.values())", "    return all(0 <= value for value in input_dict.values())"))
+B("C03", "mul-shortcut-for-a-constant-left-operand", (OPS, """        elif isinstance(other, PauliTerm):
+            result_term = self.copy(new_coefficient=1)""", """        elif isinstance(other, PauliTerm):
+            if self.is_constant:
+                return other.copy()
+            result_term = self.copy(new_coefficient=1)"""), rule="C03-D3")
+T("C03", "twin-mul-shortcut-that-keeps-the-coefficient", (OPS, """        elif isinstance(other, PauliTerm):
+            result_term = self.copy(new_coefficient=1)""", """        elif isinstance(other, PauliTerm):
+            if self.is_constant:
+                return other.copy(new_coefficient=self.coefficient * other.coefficient)
+            result_term = self.copy(new_coefficient=1)"""))
+B("C11", "precision-written-only-when-truthy", ("utils.py", """        if type(self.precision).__module__ == np.__name__:
+            data["precision"] = self.precision.item()
+        else:
+            data["precision"] = self.precision
+""", """        if self.precision:
+            if type(self.precision).__module__ == np.__name__:
+                data["precision"] = self.precision.item()
+            else:
+                data["precision"] = self.precision
+"""), rule="C11-D5")
+B("C19", "product-arm-answers-with-a-native-literal", ("circuits/symbolic/sympy_expressions.py", """    if is_multiplication_by_reciprocal(mul):""", """    if mul.is_number and mul.args[1] == sympy.I:
+        return complex(0, float(mul.args[0]))
+    elif is_multiplication_by_reciprocal(mul):"""), rule="C19-D3")
+B("C18", "ry-dropped-for-whole-turns", ("decompositions/_orquestra_decompositions.py", """        gate_decomposition = [RZ(phi), RY(theta), RZ(lambda_)]
+""", """        gate_decomposition = [RZ(phi), RY(theta), RZ(lambda_)]
+        if theta == 0:
+            gate_decomposition = [RZ(phi), RZ(lambda_)]
+"""), rule="C18-D4")
+B("C02", "non-parametric-factories-cached-through-an-alias", ("circuits/_matrices.py", """import numpy as np
+import sympy
+""", """from functools import lru_cache
+
+import numpy as np
+import sympy
+
+_constant = lru_cache(maxsize=None)
+"""), ("circuits/_matrices.py", """def x_matrix():
+    return sympy.Matrix([[0, 1], [1, 0]])""", """@_constant
+def x_matrix():
+    return sympy.Matrix([[0, 1], [1, 0]])"""), rule="C02-D4")
+B("C12", "dicke-vectors-remembered-in-a-module-table", ("wavefunction.py", """            amplitude = 1 / np.sqrt(counter)
+            wf = np.zeros(2**n_qubits, dtype=np.complex128)
+            wf[indices] = amplitude
+""", """            amplitude = 1 / np.sqrt(counter)
+            wf = np.zeros(2**n_qubits, dtype=np.complex128)
+            wf[indices] = amplitude
+            _DICKE[n_qubits, hamming_weight] = wf
+"""), ("wavefunction.py", """class Wavefunction:
+    \"\"\"""", """_DICKE: dict = {}
+
+
+class Wavefunction:
+    \"\"\""""), rule="C12-D3")
+B("C04", "outcome-probabilities-remembered-on-the-wavefunction", ("wavefunction.py", """        probs = self.get_probabilities()
+
+        return dict(zip(values, probs))""", """        probs = self.get_probabilities()
+
+        self._outcome_probs = dict(zip(values, probs))
+        return self._outcome_probs"""), rule="C04-D10")
